@@ -842,6 +842,28 @@ func monitorBlend(caseLine string, cs []Call) (fails []Failure) {
 		if d.R == 0 && got != c0 || d.R == 255 && got != c1 {
 			fails = append(fails, Failure{"C09.blend-ends", caseLine, "t=0/255 does not give the operand"})
 		}
+		// "over all palette/register contents": registers holding gradient-encoding values and other colours with alpha 0
+		// (round 5, C09-I: a blend whose operands both have alpha 0 short-cut to transparent black), operands that refer to
+		// them, every t incl. the ends
+		regs := creg
+		h := uint32(d.R)*2654435761 + uint32(d.G)*40503 + uint32(d.B)
+		for k := 0; k < 64; k += 1 + int(h%3) {
+			h = h*1664525 + 1013904223
+			regs[k] = color.RGBA{uint8(h >> 24), uint8(h>>16) | 0x80, uint8(h>>8) | 0x80, 0}
+		}
+		for _, tt := range []uint8{d.R, 0, 255, 128} {
+			for _, ops := range [][2]uint8{{0xc0 | d.G&0x3f, 0xc0 | d.B&0x3f}, {0xc0 | d.G&0x3f, 127}, {127, 0xc0 | d.B&0x3f}} {
+				bc := ivg.BlendColor(tt, ops[0], ops[1])
+				g2 := bc.Resolve(&pal, &regs)
+				a0 := ivg.DecodeColor1(ops[0]).Resolve(&pal, &regs)
+				a1 := ivg.DecodeColor1(ops[1]).Resolve(&pal, &regs)
+				t2 := uint32(tt)
+				ch2 := func(a, b uint8) uint8 { return uint8(((255-t2)*uint32(a) + t2*uint32(b) + 128) / 255) }
+				if w2 := (color.RGBA{ch2(a0.R, a1.R), ch2(a0.G, a1.G), ch2(a0.B, a1.B), ch2(a0.A, a1.A)}); g2 != w2 {
+					return append(fails, Failure{"C09.blend-formula", caseLine, fmt.Sprintf("blend t=%d of operands %#02x,%#02x resolving to %v,%v (registers holding alpha-0 values): got %v want %v", tt, ops[0], ops[1], a0, a1, g2, w2)})
+				}
+			}
+		}
 	}
 	return
 }
@@ -2065,6 +2087,18 @@ func suiteC17(s *Shard, n int) {
 			}
 			if RunEnc(ab) != obsAB {
 				s.Fail("C17.deterministic", lineAB, "same calls, different output")
+			}
+			// whatever the history of OTHER Encoders was, a fresh zero-value Encoder is the blank graphic (round 5, C18-J: the
+			// zero-value Encoder's buffer aliased a package-level header, which a later Reset of that Encoder overwrote)
+			if r.Chance(25) {
+				var used encode.Encoder
+				used.Bytes()
+				used.Reset(ivg.ViewBox{MinX: -1, MinY: -2, MaxX: 3, MaxY: 4}, ivg.DefaultPalette)
+				used.Bytes()
+			}
+			var fresh encode.Encoder
+			if bz, ez := fresh.Bytes(); ez != nil || !bytes.Equal(bz, []byte{0x89, 'I', 'V', 'G', 0x00}) {
+				s.Fail("C17.fresh-encoder-unaffected", lineAB, fmt.Sprintf("after this history on another Encoder, a fresh zero-value Encoder's Bytes() is % x (%v)", bz, ez))
 			}
 			if r.Chance(30) {
 				// a fresh zero-value Encoder with the exported resolution flag set before its first call, against a
